@@ -4,12 +4,13 @@ from .core import ob
 # ----------------------------------------------------------------------------- dynarray.c
 DA = dict(unit="dynarray_u.c", file="hdf/src/dynarray.c", cex_unwind=22, trusted=["HEclear/HEpush (error stack)"])
 ob("da_get", "C12", entry="h_da_get", enforce="DAget_elem", **DA)
-ob("da_set", "C12", entry="h_da_set", enforce="DAset_elem", **DA)
-ob("da_set_incr8", "C12", entry="h_da_set", enforce="DAset_elem", defines=["DA_INCR=8"], **DA)
-ob("da_set_incr1", "C12", entry="h_da_set", enforce="DAset_elem", defines=["DA_INCR=1"], **DA)
+ob("da_set_inplace", "C12", entry="h_da_set", enforce="DAset_elem", defines=["DA_PATH=0"], **DA)
+ob("da_set_first", "C12", entry="h_da_set", enforce="DAset_elem", defines=["DA_PATH=1"], **DA)
+ob("da_set_grow", "C12", entry="h_da_set", enforce="DAset_elem", defines=["DA_PATH=2"], loops=True, nloops=1, loopcls="P", **DA)
+ob("da_set_grow_b", "C12", entry="h_da_set", enforce="DAset_elem", defines=["DA_PATH=2", "DA_INCR=8", "DA_MAXELEM=63", "DA_MAXN=64"], loops=True, nloops=1, loopcls="P",
+   mode="bounded", bound="incr_mult 8, table <= 64 slots", **DA)
+ob("da_set_null", "C12", entry="h_da_set", enforce="DAset_elem", defines=["DA_NULLCASE"], **DA)
 ob("da_del", "C12", entry="h_da_del", enforce="DAdel_elem", **DA)
+ob("da_del_null", "C12", entry="h_da_del", enforce="DAdel_elem", defines=["DA_NULLCASE"], **DA)
 ob("da_size", "C12", entry="h_da_size", enforce="DAsize_array", **DA)
 ob("da_create", "C12", entry="h_da_create", enforce="DAcreate_array", **DA)
-ob("da_set_t1", "C12", entry="h_da_set", enforce="DAset_elem", defines=["DA_NOGROW"], **DA)
-ob("da_set_t2", "C12", entry="h_da_set", enforce="DAset_elem", defines=["DA_INCR=8", "DA_MAXELEM=63", "DA_MAXN=64"], **DA)
-ob("da_set_t3", "C12", entry="h_da_set", enforce="DAset_elem", defines=["DA_INCR=256", "DA_MAXELEM=511", "DA_MAXN=512"], **DA)
